@@ -88,5 +88,7 @@ def run(tier, seed):
                         "configurations: define_moments! orders %s" % orders],
         "explanation": "each bias-corrected accessor against its textbook definition for symbolic n at or above its minimum sample size and symbolic central sums; sentinels below.",
     }
+    import vl
+    pr.obs += vl.run_lemmas("C10", ["realizable", "bridge"])
     from confirm_rs import confirm_moment
     return pr.obs, meta, lambda ob: confirm_moment(ob, TYPE_MAP)
